@@ -595,7 +595,9 @@ def process_extract(header, directives, ctx):
         kind = 'fn'
     # 2. rules and substitutions, in the order written
     log = []
+    degrade = ctx.get('apply_mutant') is None and not ctx.get('strict')
     for d in directives:
+      try:
         if d[0] == 'rule':
             rm = re.match(r'(\w+)(?:\(([^)]*)\))?$', d[1])
             if not rm or rm.group(1) not in RULES:
@@ -625,6 +627,12 @@ def process_extract(header, directives, ctx):
                 raise
             kindlbl = 'insert-only' if is_insert_only(old, new) else 'rewrite'
             log.append(('subst/' + kindlbl, old, new))
+      except Undecided as e:
+        # degraded mode: a directive whose anchor vanished is skipped; the unit is still assembled from the real
+        # code with its `sig` contracts. A passing proof is sound; a failing one is then only UNDECIDED.
+        if not degrade or d[0] == 'rule':
+            raise
+        ctx.setdefault('lost', []).append('%s: %s' % (name, e))
     for d in directives:
         if d[0] == 'mutant' and ctx.get('apply_mutant') == d[1][0] and ctx.get('mutant_post'):
             text, _ = tok_replace(text, d[1][1], d[1][2], what='mutant ' + d[1][0])
@@ -637,6 +645,7 @@ def process_extract(header, directives, ctx):
         edits = []
         has_requires = False
         for d in directives:
+          try:
             if d[0] == 'ret':
                 # find `->` after params close, before body
                 a = pc + 1
@@ -735,6 +744,10 @@ def process_extract(header, directives, ctx):
                 pos = toks[h].start if d[0] == 'before' else toks[h + len(pat) - 1].end
                 edits.append(Edit(pos, pos, '\n' + payload + '\n', 'ghost', ''))
                 rec['inserts'] += 1
+          except Undecided as e:
+            if not degrade or d[0] in ('ret', 'sig'):
+                raise
+            ctx.setdefault('lost', []).append('%s: %s' % (name, e))
         opaque = any(d[0] == 'opaque_body' for d in directives)
         if opaque:
             edits.append(Edit(toks[bo].start, toks[bc].end, '{ unimplemented!() }', 'opaque', ''))
@@ -786,7 +799,7 @@ def assemble(unit_path, apply_mutant=None, vacuity=False, hooks=None):
 def _assemble(unit_path, apply_mutant, vacuity, hooks, mutant_post):
     lines = open(unit_path).read().split('\n')
     ex = Extracted()
-    ctx = dict(mutants=[], apply_mutant=apply_mutant, vacuity=vacuity, contracted=[], mutant_post=mutant_post)
+    ctx = dict(mutants=[], apply_mutant=apply_mutant, vacuity=vacuity, contracted=[], mutant_post=mutant_post, strict=bool(os.environ.get('VERIF_STRICT_ANCHORS')))
     out = []
     i = 0
 
@@ -915,4 +928,5 @@ def _assemble(unit_path, apply_mutant, vacuity, hooks, mutant_post):
     ex.out_text = '\n'.join(out) + '\n'
     ex.mutants = ctx['mutants']
     ex.contracted = ctx['contracted']
+    ex.lost = ctx.get('lost', [])
     return ex
